@@ -64,20 +64,35 @@ theorem runPool_frame (E : Env) : ∀ (ops : List Op) (k : Nat) (p : Pool),
     obtain ⟨h3, h4⟩ := effect_frame (step_effect E k p op)
     exact ⟨by simp only [runPool]; rw [h1, h3], fun j => by simp only [runPool]; rw [h2, h4]⟩
 
-/-- No listener hook failed during the history: no exception was swallowed by a notification handler
-and no `del` raised after deleting (observable: `X0` on every line and no failing operation that
-changed state). -/
-def NoHookFailure (E : Env) (k : Nat) (p : Pool) (ops : List Op) : Prop :=
-  ∀ s ∈ run E k p ops, s.hookExc = 0 ∧ s.broken = false
+/-- No `del` of a prototyped value raised after deleting (its read-back through the link failed) during
+the history — observable: no failing operation changed state.  Since fix bead785 this is the only way
+a link can be left without forwarder (`step_flags`). -/
+def NoBrokenDel (E : Env) (k : Nat) (p : Pool) (ops : List Op) : Prop :=
+  ∀ s ∈ run E k p ops, s.broken = false
 
 theorem runPool_linked (E : Env) : ∀ (ops : List Op) (k : Nat) (p : Pool),
-    Inv p → Linked p → NoHookFailure E k p ops → Linked (runPool E k p ops)
+    Inv p → Linked p → NoBrokenDel E k p ops → Linked (runPool E k p ops)
   | [], _, _, _, L, _ => L
   | op :: ops, k, p, I, L, hnf => by
     have h0 := hnf (step E k p op) (by simp [run])
-    have hrest : NoHookFailure E (k + 1) (step E k p op).pool ops := fun s hs => hnf s (by simp [run, hs])
+    have hrest : NoBrokenDel E (k + 1) (step E k p op).pool ops := fun s hs => hnf s (by simp [run, hs])
     exact runPool_linked E ops (k + 1) _ (effect_inv (step_effect E k p op) I)
-      (effect_linked (step_effect E k p op) h0.1 h0.2 I L) hrest
+      (effect_linked (step_effect E k p op) (step_flags E k p op).1 h0 I L) hrest
+
+/-- Histories without `del` never break a link. -/
+theorem noBrokenDel_of_no_del (E : Env) : ∀ (ops : List Op) (k : Nat) (p : Pool),
+    (∀ op ∈ ops, ∀ o n, op ≠ .del o n) → NoBrokenDel E k p ops
+  | [], _, _, _ => by intro s hs; simp [run] at hs
+  | op :: ops, k, p, h => by
+    intro s hs
+    simp only [run, List.mem_cons] at hs
+    rcases hs with rfl | hs
+    · cases hb : (step E k p op).broken with
+      | false => rfl
+      | true =>
+        obtain ⟨o, n, _, hop, _⟩ := (step_flags E k p op).2 hb
+        exact absurd hop (h op (by simp) o n)
+    · exact noBrokenDel_of_no_del E ops (k + 1) _ (fun op' h' => h op' (by simp [h'])) s hs
 
 /-! ### independence of a prototyped attribute that holds a local value -/
 
